@@ -3,7 +3,7 @@
 # z3-solver and crosshair-tool from the offline wheelhouse. Idempotent.
 set -e
 cd "$(dirname "$0")"
-V=/verif/.venv
+V="$(pwd)/.venv"
 if [ -x "$V/bin/python" ] && "$V/bin/python" -c "import z3, nanoemoji" >/dev/null 2>&1; then
   exit 0
 fi
